@@ -561,8 +561,8 @@ func coqCase(p *program, o *observation) (string, bool) {
 	case "reader", "readcloser":
 		gb, reader, unrep = "GBReader", hk.CoqStr(sh.Body), "true"
 	}
-	rs := fmt.Sprintf("(mkR %s %s %s %s %s %s %s %s %s %s %s %s %s %s %s)", hk.CoqStr(sh.Method), hk.CoqStr(sh.RawQuery), coqAmap(sh.RHeaders), coqCookies(sh.RCookies),
-		coqAmap(sh.RForm), coqAmap(sh.RQuery), body, gb, reader, unrep, hk.CoqZ(int64(p.Stale)), hk.CoqStr(sh.path()), coqCookies(sh.RPParams), coqCookies(sh.Ordered), marshal)
+	rs := fmt.Sprintf("(mkR %s %s %s %s %s %s %s %s %s %s %s %s %s %s %s %s)", hk.CoqStr(sh.Method), hk.CoqStr(sh.RawQuery), coqAmap(sh.RHeaders), coqCookies(sh.RCookies),
+		coqAmap(sh.RForm), coqAmap(sh.RQuery), body, gb, reader, unrep, hk.CoqZ(int64(p.Stale)), hk.CoqStr(sh.path()), coqCookies(sh.RPParams), coqCookies(sh.Ordered), marshal, hk.CoqBool(sh.CloseConn))
 	waitCancelEffective := effectiveOf(p).Interval > 0 // only the logging interval functions end the context
 	var script []string
 	for k, oc := range p.Script {
@@ -627,7 +627,7 @@ func coqCase(p *program, o *observation) (string, bool) {
 				hs = append(hs, kvs{k, vs})
 			}
 		}
-		wires = append(wires, fmt.Sprintf("mkW %s %s %s %s %s %s", hk.CoqStr(w.Method), hk.CoqStr(w.Path), hk.CoqStr(w.Query), coqAmap(hs), coqCookies(w.Cookies), hk.CoqOpt(w.HasBody, hk.CoqStr(w.Body))))
+		wires = append(wires, fmt.Sprintf("mkW %s %s %s %s %s %s %s", hk.CoqStr(w.Method), hk.CoqStr(w.Path), hk.CoqStr(w.Query), coqAmap(hs), coqCookies(w.Cookies), hk.CoqOpt(w.HasBody, hk.CoqStr(w.Body)), hk.CoqBool(w.Close)))
 	}
 	detect := ""
 	if sh.Body != "" {
